@@ -857,10 +857,11 @@ class Manager:
                     task_state.task = value
                     task_state.parent = parent
                 else:
-                    event.waitingHandlers -= 1
-                    if value is not None:
-                        event.value.value = value
-                    self.registerTask((event, parent, None))
+                    # the caller went on and yielded something else (a
+                    # value, None, sleep()): have it classified like any
+                    # other yielded object, see the ExceptionWrapper case
+                    value_generator = (val for val in (value,))
+                    self.registerTask((event, value_generator, parent))
             elif isinstance(value, GeneratorType):
                 event.waitingHandlers += 1
                 self.unregisterTask((event, task, None))
